@@ -36,6 +36,10 @@ CONTEXTS = {
     'textbf-arg': ('\\textbf{', '}'),
     'env-arg': ('\\begin{theorem}[', ']t\\end{theorem}'),
 }
+NESTED_ENVS = ['array', 'cases', 'matrix', 'aligned', 'split', 'pmatrix', 'gathered', 'align*']
+NEST_CONTEXTS = ['top', 'text', 'env', 'group', 'brace-arg', 'item']
+NESTED_BODIES = [('', 'a & [b \\\\ c'), ('{cc}', '\\alpha & (0,1] '), ('', '\\frac{1}{2})'),
+                 ('{c}', 'x')]
 PLAIN_CMDS = ['alpha', 'frac', 'sum', 'mathbb']
 ZERO = ['cup', 'cap', 'in', 'notin', 'infty']
 SAFE_AFTER_NAME = ['+', '=1', '-y', '^2', '_i', '.', ',z', ' +', ' \n=']
@@ -182,7 +186,8 @@ class C12(Prop):
             'environments) with a generated body in 14 contexts; (ii) every '
             'sizing prefix x every delimiter as the only command of a region; '
             '(iii) every zero-argument operator followed by a bracket; (iv) '
-            'two directly adjacent regions for all ordered pairs of kinds. '
+            'two directly adjacent regions for all ordered pairs of kinds; (v) a '
+            'named environment (array, cases, split, ...) nested in every kind of region. '
             'non-trivial = the body contains a bracket, a command or an '
             'escaped dollar; distinct = by content')
     assumptions = (
@@ -236,6 +241,17 @@ class C12(Prop):
                     k += 1
                     if want(k):
                         yield k, {'w': 'adjacent', 'kinds': [a, b], 'bodies': [ba, bb]}
+        # (v) a named environment nested in a math region (the usual home of
+        # array / cases / split): it stays one environment node, searchable,
+        # and the brackets in its body stay text
+        for outer in KINDS:
+            for inner in NESTED_ENVS:
+                for ci, cx in enumerate(NEST_CONTEXTS):
+                    for bi, (ia, ib) in enumerate(NESTED_BODIES):
+                        k += 1
+                        if want(k) and (tier != 'quick' or (ci + bi + len(inner)) % 2 == 0):
+                            yield k, {'w': 'nested', 'kind': outer, 'inner': inner, 'ctx': cx,
+                                      'iargs': ia, 'ibody': ib}
         n = 14000 if tier == 'quick' else 350000
         ctxs = list(CONTEXTS)
         for j in range(n):
@@ -254,13 +270,15 @@ class C12(Prop):
                       'body': fix_body(kind, body), 'expect': exp}
 
     def nontrivial(self, p):
-        if p['w'] == 'adjacent':
+        if p['w'] in ('adjacent', 'nested'):
             return True
         return any(c in p['body'] for c in '()[]\\')
 
     def sample(self, p):
         if p['w'] == 'adjacent':
             return {'src': region(p['kinds'][0], p['bodies'][0]) + region(p['kinds'][1], p['bodies'][1])}
+        if p['w'] == 'nested':
+            return p
         return {'src': short(CONTEXTS[p['ctx']][0] + region(p['kind'], p['body']) + CONTEXTS[p['ctx']][1], 200)}
 
     def check(self, p, ctx):
@@ -280,6 +298,8 @@ class C12(Prop):
             if str(soup) != src:
                 return [fail('math-roundtrip', '%s -> %s' % (short(repr(src)), short(repr(str(soup)))))]
             return []
+        if p['w'] == 'nested':
+            return self.check_nested(p, ctx)
         c0, c1 = CONTEXTS[p['ctx']]
         kind, body = p['kind'], p['body']
         src = c0 + region(kind, body) + c1
@@ -318,8 +338,53 @@ class C12(Prop):
                 ctx.seen('sizing_command', name)
         return []
 
+    def check_nested(self, p, ctx):
+        from TexSoup.data import BracketGroup, TexNamedEnv
+        c0, c1 = CONTEXTS[p['ctx']]
+        kind, inner = p['kind'], p['inner']
+        iregion = '\\begin{%s}%s%s\\end{%s}' % (inner, p['iargs'], p['ibody'], inner)
+        body = 'u ' + iregion + ' v'
+        src = c0 + region(kind, body) + c1
+        soup = common.parse(src)
+        ctx.count('regions:nested')
+        ctx.seen('nested_pair', (kind, inner))
+        if str(soup) != src:
+            return [fail('math-roundtrip', '%s -> %s' % (short(repr(src)), short(repr(str(soup)))))]
+        ms = math_nodes(soup.expr)
+        want = 2 if inner in docgen.MENV else 1
+        if len(ms) != want:
+            return [fail('math-node', '%s yields %d math regions, expected %d'
+                         % (short(repr(src), 140), len(ms), want))]
+        why = check_region(ms[0], kind, body)
+        if why:
+            return [fail('math-node', '%s: %s' % (short(repr(src), 140), why))]
+        found = soup.find_all(inner)
+        if kind == 'env:' + inner:
+            found = [f for f in found if f.expr is not ms[0]]
+        if len(found) != 1 or not isinstance(found[0].expr, TexNamedEnv):
+            return [fail('nested-environment', 'environment %s inside %s of %s: find_all gives %r'
+                         % (inner, kind, short(repr(src), 140), [type(f.expr).__name__ for f in found]))]
+        el = found[0].expr
+        if str(el) != iregion or ''.join(map(str, el._contents)) != p['ibody'] \
+                or str(el.args) != p['iargs']:
+            return [fail('nested-environment', 'environment %s inside %s: text %r, body %r, args %r; '
+                         'source has %r' % (inner, kind, str(el), ''.join(map(str, el._contents)),
+                                            str(el.args), iregion))]
+        for _, _, _, x in common.raw_nodes(ms[0]):
+            if isinstance(x, BracketGroup):
+                return [fail('bracket-not-text', 'a bracket in %s became an argument group'
+                             % short(repr(src), 140))]
+        if 'alpha' in p['ibody'] or 'frac' in p['ibody']:
+            nm = 'alpha' if 'alpha' in p['ibody'] else 'frac'
+            if len(soup.find_all(nm)) != 1:
+                return [fail('math-search', 'command \\%s in the nested environment of %s not found once'
+                             % (nm, short(repr(src), 140)))]
+        return []
+
     def gates(self, m, tier):
         g = []
+        if len(m['sets'].get('nested_pair', ())) < len(KINDS) * len(NESTED_ENVS):
+            g.append('not every (region kind, nested environment) pair exercised')
         if len(m['sets'].get('kind', ())) < len(KINDS):
             g.append('not all 21 region kinds exercised')
         if len(m['sets'].get('context', ())) < len(CONTEXTS):
